@@ -193,14 +193,19 @@ namespace
       Dwarf_Op *expr;
       size_t exprlen;
 
-      switch (m_offset = dwarf_getlocations (&m_attr, m_offset, &m_base,
-					     &start, &end, &expr, &exprlen))
+      // Keep the position if the call fails: passing the -1 back to
+      // dwarf_getlocations on a later call would crash libdw.
+      ptrdiff_t offset = dwarf_getlocations (&m_attr, m_offset, &m_base,
+					     &start, &end, &expr, &exprlen);
+      switch (offset)
 	{
 	case -1:
 	  throw_libdw ();
 	case 0:
+	  m_offset = 0;
 	  return nullptr;
 	default:
+	  m_offset = offset;
 	  return std::make_unique <value_loclist_elem>
 	    (m_dwctx, m_attr, start, end, expr, exprlen, m_i++);
 	}
